@@ -177,7 +177,24 @@ else:
     ok = b is not None and m_node(_parse("{_I: self.generate_utility('', f'_{_I}') for _I in range(self.total_sample_size)}")[0].value, b['__U'][1], {}) \
         and m_node(_parse("{_I: self.utilities[_I] for _I in range(1, self.total_sample_size)}")[0].value, b['__M1'][1], {}) \
         and m_node(_parse("{_I: self.generate_utility(self.mev_prefix, f'_{_I}') for _I in range(self.context.second_sample_size)}")[0].value, b['__M2'][1], {})
-    ctx.add('C19.R2', 'GenerateModel.__init__', ok, init, 'utility i reads the attributes with suffix _i; the second sample uses the MEV prefix; without second partition the MEV sample is the main sample minus the chosen alternative' if ok else 'construction of the sampled utilities changed', 'utilities')
+    wrong = None
+    if b is not None and not ok:
+        # the same three tables over another range of positions: which alternatives of the sample have a utility
+        WANT = {'__U': ("{_I: self.generate_utility('', f'_{_I}') for _I in __R}", ('0', 'self.total_sample_size'), 'main sample'),
+                '__M1': ("{_I: self.utilities[_I] for _I in __R}", ('1', 'self.total_sample_size'), 'main sample without the chosen alternative'),
+                '__M2': ("{_I: self.generate_utility(self.mev_prefix, f'_{_I}') for _I in __R}", ('0', 'self.context.second_sample_size'), 'second sample')}
+        for key, (pat, (lo, hi), what) in WANT.items():
+            bb = {}
+            if m_node(_parse(pat)[0].value, b[key][1], bb) and isinstance(bb['__R'][1], ast.Call) and call_name(bb['__R'][1]) == 'range' and 1 <= len(bb['__R'][1].args) <= 2:
+                args = [unparse(a) for a in bb['__R'][1].args]
+                got = ('0', args[0]) if len(args) == 1 else tuple(args)
+                if got != (lo, hi):
+                    wrong = f'the utilities of the {what} are built for positions range({", ".join(args)}); the positions of that sample are range({lo + ", " if lo != "0" else ""}{hi}): ' + \
+                        ('the alternatives before position ' + got[0] + ' have no term in the model' if got[1] == hi else 'the positions do not cover the sample')
+    if wrong:
+        ctx.add('C19.R2', 'GenerateModel.__init__', False, init, wrong, 'range', positive=True)
+    else:
+        ctx.add('C19.R2', 'GenerateModel.__init__', ok, init, 'utility i reads the attributes with suffix _i; the second sample uses the MEV prefix; without second partition the MEV sample is the main sample minus the chosen alternative' if ok else 'construction of the sampled utilities changed', 'utilities')
     n3 = 0
     for name, fn in M.methods.items():
         COMPS = (ast.DictComp, ast.ListComp, ast.SetComp, ast.GeneratorExp)
